@@ -1,6 +1,13 @@
 package main
 
 var propTable = map[string]*propSpec{
+	"C13": {
+		ID:    "C13",
+		Rules: []string{"R-SCHEMA", "R-MAPORDER"},
+		Explanation: "Decides the structural part of 'string.dump followed by load reproduces the function': (R-SCHEMA) the item sequence writeCode puts on the wire (fields, Go wire types, length prefixes, nested constant and upvalue-name loops) equals the sequence readCode takes off it, together they cover every field of runtime.Code, the constant tags of writeConst and readConst coincide with equal payload types, and writer, reader and sniffer share one magic prefix; (R-MAPORDER) nothing reachable from string.dump iterates over a Go map, so no run-to-run ordering can reach the bytes.",
+		NotDecided: "observational equivalence of the reloaded function (that RefactorCodeConsts re-indexes constants correctly, that the closure is rebuilt with the right upvalues) and every other source of nondeterminism than map order.",
+		Assumptions: []string{"binary.Write/Read with the same Go type and byte order are inverse (standard library)", "the order of items is the source order of the write/read calls in the two straight-line functions (their loops are the two element loops only)"},
+	},
 	"C01": {
 		ID:    "C01",
 		Rules: []string{"R-REGTABLE", "R-BITS", "R-DISPATCH", "R-NILNIL", "R-SCOPE", "R-PRIVREG"},
